@@ -102,6 +102,7 @@ var c03Skeletons = []string{
 	"and sleep(5)", "or sleep(5)", "and benchmark(1,2)", "and extractvalue(1,2)", "and updatexml(1,2,3)", "or pg_sleep(5)", "and (select 1)", "and 1=(select 1)", "and (select count(*) from t)>0", "and if(1=1,sleep(5),0)", "and ascii(substring(user(),1,1))>64", "and load_file('x')",
 	"order by 1", "group by 1", "having 1=1", "limit 1",
 	"or (1=1)", "or (1)=(1)", "and (1=1)", "or ('a'='a')", "or (select 1)=1", "and 1 in (1)", "or not 1=2", "or 1 between 0 and 2", "or 1 is not null", "and exists (select 1)",
+	"; if(1=1) select 1", "; if (1=1) drop table t",
 }
 
 // detected only when the injection closes a parenthesis (prefix ends in ')'): the payload re-opens it
@@ -152,6 +153,10 @@ func caseAssign(body string, ci int, rng *rand.Rand) string {
 				if i%2 == 0 {
 					b[i] -= 32
 				}
+			case 4:
+				if i%2 == 1 {
+					b[i] -= 32
+				}
 			case 3:
 				if rng.Intn(2) == 0 {
 					b[i] -= 32
@@ -184,11 +189,22 @@ func enumC03(c *oracleCfg, chk func(in, what string)) {
 		for _, pr := range c03Prefixes {
 			for _, tl := range c03Tails {
 				for _, sp := range c03Seps {
-					for ci := 0; ci < 3; ci++ {
+					for _, ci := range []int{0, 1, 2, 4} {
 						body := caseAssign(strings.ReplaceAll(sk, " ", sp), ci, nil)
 						chk(pr+body+tl, "skeleton="+sk)
 					}
 				}
+			}
+		}
+	}
+	// an inline comment of any length is still one separator (bodies at the lengths where a bounded search flips)
+	for _, k := range append(append([]int{}, runLengths...), 511, 512, 513, 1023, 1024, 1025, 4095, 4096, 4097) {
+		cm := "/*" + strings.Repeat("A", k) + "*/"
+		for _, sk := range []string{"or 1=1", "union select 1", "and sleep(5)", "; drop table t"} {
+			for _, pr := range []string{"1 ", "x' ", "1) "} {
+				chk(pr+strings.ReplaceAll(sk, " ", cm), "long-comment="+sk)
+				chk(pr+strings.Replace(sk, " ", cm, 1), "long-comment="+sk)
+				chk(strings.TrimSpace(pr)+cm+sk, "long-comment="+sk)
 			}
 		}
 	}
@@ -558,6 +574,36 @@ func oracleC14(c *oracleCfg) *report {
 var c14Literals = []string{"sp_password", "SP_PASSWORD", "Sp_Password", "sp_passwordx", "xsp_password", "password", "outfile", "dumpfile", "collate_x", "x_collate",
 	"javascript", "script", "onerror", "xp_cmdshell", "information_schema", "load_file", "benchmark_x", "sleep_x", "waitfor_x", "pg_sleep_x"}
 
+// keywords whose near-misses the benign grammar contains: an index keyed on part of the bytes, a stripped suffix or
+// a lenient comparison in the word look-up would turn a plain word into a keyword
+var c14Keywords = []string{"select", "union", "insert", "update", "delete", "drop", "or", "and", "not", "like", "in", "is", "null", "limit", "having", "order", "group",
+	"by", "from", "where", "into", "values", "exec", "case", "when", "then", "else", "end", "sleep", "benchmark", "if", "user", "database", "version", "char", "concat",
+	"between", "exists", "all", "distinct", "as", "join", "on", "table", "set", "div", "mod", "xor", "regexp", "rlike", "sounds", "collate", "binary", "varchar", "int"}
+
+// derivedWords: near-misses of a keyword that are still plain identifiers
+func derivedWords(k string) []string {
+	var out []string
+	for _, suf := range []string{"2", "4", "8", "16", "32", "64", "128", "256", "1", "0", "_", "_x", "x", "s", "ed"} {
+		out = append(out, k+suf)
+	}
+	out = append(out, "x"+k, "_"+k, k+k)
+	for i := 0; i < len(k); i++ {
+		c := k[i]
+		if d := c & 0x1f; d <= 9 && i > 0 { // the digit that shares the low five bits with the letter
+			out = append(out, k[:i]+string([]byte{'0' + d})+k[i+1:])
+		}
+		if d := c & 0x0f; d <= 9 && i > 0 {
+			out = append(out, k[:i]+string([]byte{'0' + d})+k[i+1:])
+		}
+		out = append(out, k[:i]+"_"+k[i:])
+		if i > 0 {
+			out = append(out, k[:i]+k[i+1:]) // one letter dropped
+			out = append(out, k[:i]+string([]byte{c, c})+k[i+1:])
+		}
+	}
+	return out
+}
+
 // enumC14 enumerates the benign grammar (also the correspondence stream g14).
 func enumC14(c *oracleCfg, chk func(fam, s string, nt bool)) {
 	comp := keywordComponents()
@@ -626,6 +672,18 @@ func enumC14(c *oracleCfg, chk func(fam, s string, nt bool)) {
 				chk("literal", parts[0]+" "+w, true)
 				chk("literal", "7 "+w+" 7", true)
 				chk("literal", w+" "+strings.Join(parts, " "), true)
+			}
+		}
+		if i < len(c14Keywords) { // words derived from table keys that are not themselves (components of) keys
+			kwd := c14Keywords[i]
+			for _, w := range derivedWords(kwd) {
+				if comp[strings.ToUpper(w)] {
+					continue
+				}
+				chk("derived", "1 "+w+" 1", true)
+				chk("derived", w+" 1", true)
+				chk("derived", "x "+w+" y", true)
+				chk("derived", "1 "+w+" 1 "+w+" 1", true)
 			}
 		}
 		chk("email", word()+"@"+word()+"."+word(), true)
